@@ -36,6 +36,10 @@ type RunCtx struct {
 	// two garbage collections after the run so that the next bubble cannot
 	// pick up a timer of this one.
 	DirtyPools bool
+	// AllowStalls lets NewSim enable the stalled-task fault for this run; only
+	// harnesses whose timing oracles exclude operations overlapping a stall
+	// (and that do not rely on "everything has run after a settle") set it.
+	AllowStalls bool
 	// Nontrivial is set by the harness when the run exercised at least one
 	// fault or at least two concurrently live tasks.
 	Nontrivial bool
@@ -76,6 +80,12 @@ func (rc *RunCtx) NewSim(maxSteps int, horizon time.Duration) *simrt.Sim {
 	cfg.PCTDepth = 1 + rc.Tape.Intn("cfg", 3)
 	cfg.SitePct = []int{100, 100, 60, 30}[rc.Tape.Intn("cfg", 4)]
 	cfg.SiteSeed = uint64(rc.Tape.Intn("cfg", 1<<30))
+	if rc.AllowStalls {
+		cfg.StallPerMille = []int{0, 0, 0, 5, 15}[rc.Tape.Intn("cfg", 5)]
+		if cfg.StallPerMille > 0 {
+			rc.Sample["stall_per_mille"] = cfg.StallPerMille
+		}
+	}
 	rc.Sample["policy"] = []string{"uniform", "sticky", "pct"}[cfg.Policy]
 	rc.Sample["site_pct"] = cfg.SitePct
 	s := simrt.New(rc.Tape, cfg)
